@@ -5,10 +5,12 @@
                                             expressions containing them answer `has-fn`)
     deriv <name> <var> <v0,...>          -> value of the symbolic derivative d/dx_var
     valid <min|ts> <atBounds> <atomistic> <e0,e1,...>   -> 1 | 0 | index-error
+    ljn <N> <eps> <sigma> <x0,...,x(3N-1)>  -> energy|g0,g1,...|fg-agree   (loop model Model/LjN.lean, any N)
 -/
 import TopSearch.Py.Expr
 import TopSearch.Model.Surfaces
 import TopSearch.Gen.Surfaces
+import TopSearch.Model.LjN
 import TopSearch.Drv.Util
 open TopSearch TopSearch.Drv TopSearch.Py TopSearch.Surfaces TopSearch.Gen.Surfaces
 
@@ -44,6 +46,18 @@ def stepLine (_ : Unit) (ws : List String) : Unit × String :=
       | none => ((), "bad-op")
       | some e => ((), evalQ (e.d v) vals)
     | _, _, _ => ((), "bad-op")
+  | ["ljn", n, eps, sig, vs] =>
+    match parseNat? n, parseRat? eps, parseRat? sig, parseList? parseRat? vs with
+    | some N, some ε, some σ, some vals =>
+      if vals.length != 3 * N then ((), "bad-op")
+      else
+        let x := envOf vals
+        let e := LjN.energyLoop N ε σ x
+        let g := LjN.gradLoop N ε σ x
+        let fg := LjN.fgLoop N ε σ x
+        ((), showRat e ++ "|" ++ ",".intercalate (g.map showRat) ++ "|" ++
+             (if fg.1 == e && fg.2 == g then "1" else "0"))
+    | _, _, _, _ => ((), "bad-op")
   | ["valid", kind, ab, atm, es] =>
     match parseBool? ab, parseBool? atm, parseList? parseRat? es with
     | some ab, some atm, some eigs =>
